@@ -182,19 +182,16 @@ theorem pre_initial (g : Fiber) (h : sortedFrom g.frames.length g.handlers = tru
   · simp [hb]
   · rw [Nat.min_eq_right (by omega)]; exact h
 
-/-- an uncaught error leaves every frame in place with its function; frames strictly below the
-depth the search had reached still hold their raise-time instruction pointer -/
+/-- an uncaught error: the fiber `print_error` runs on is still in a state of the search (`Pre`) -/
 theorem unwindFrom_uncaught (F0 : List Frame) (bottom : Option Nat) (ds : List (Bool × Nat)) (g : Fiber) (d : Nat)
     (pre : Pre F0 g d) (f' : Fiber) (h : unwindFrom bottom g ds = .uncaught f') :
-    f'.frames.map Frame.fn = F0.map Frame.fn ∧
-    ∃ d', d' ≤ d ∧ 1 ≤ d' ∧ f'.frames.take (d' - 1) = F0.take (d' - 1) ∧
-      (g.handlers = [] → f' = g) := by
+    ∃ d', d' ≤ d ∧ Pre F0 f' d' := by
   induction ds generalizing g d with
   | nil =>
     simp only [unwindFrom] at h
     split at h
     · injection h with h; subst h
-      exact ⟨pre.fns, d, Nat.le_refl _, pre.dpos, pre.below, fun _ => rfl⟩
+      exact ⟨d, Nat.le_refl _, pre⟩
     · cases h
     · cases h
   | cons dec ds ih =>
@@ -204,19 +201,90 @@ theorem unwindFrom_uncaught (F0 : List Frame) (bottom : Option Nat) (ds : List (
       simp only [unwindFrom] at h
       split at h
       · injection h with h; subst h
-        exact ⟨pre.fns, d, Nat.le_refl _, pre.dpos, pre.below, fun _ => rfl⟩
+        exact ⟨d, Nat.le_refl _, pre⟩
       · cases h
       · split at h <;> cases h
     | false =>
       simp only [unwindFrom] at h
       split at h
       · injection h with h; subst h
-        exact ⟨pre.fns, d, Nat.le_refl _, pre.dpos, pre.below, fun _ => rfl⟩
+        exact ⟨d, Nat.le_refl _, pre⟩
       · cases h
       · rename_i f1 hsu
         obtain ⟨hd, rest, hg, hh, hc, hle, pre1⟩ := stackUnwind_pre F0 g d bottom pre f1 hsu
-        obtain ⟨hf, d', hd', hp, hb, -⟩ := ih _ _ (continue_pre F0 f1 hd rest ip' hh hc pre1) h
-        exact ⟨hf, d', by omega, hp, hb, fun hnil => by rw [hnil] at hg; cases hg⟩
+        obtain ⟨d', hd', pre'⟩ := ih _ _ (continue_pre F0 f1 hd rest ip' hh hc pre1) h
+        exact ⟨d', by omega, pre'⟩
+
+/-! ### what `print_error` reports -/
+
+/-- `print_error`'s loop (`enumerate` + `backtrace_ips.get(index)`) as a recursion over the frames
+(innermost first) and the saved ips. -/
+def tbGo : List Frame → List Nat → List (Nat × Nat)
+  | [], _ => []
+  | fr :: frs, [] => (fr.fn, reportOffset fr.ip) :: tbGo frs []
+  | fr :: frs, ip :: ips => (fr.fn, reportOffset ip) :: tbGo frs ips
+
+theorem tbGo_nil (R : List Frame) : tbGo R [] = R.map fun fr => (fr.fn, reportOffset fr.ip) := by
+  induction R with
+  | nil => rfl
+  | cons a R ih => simp [tbGo, ih]
+
+theorem mapIdx_eq_tbGo (R : List Frame) (ips : List Nat) :
+    (R.mapIdx fun index fr => (fr.fn, reportOffset (match ips[index]? with | some ip => ip | none => fr.ip))) =
+      tbGo R ips := by
+  induction R generalizing ips with
+  | nil => rfl
+  | cons a R ih =>
+    cases ips with
+    | nil =>
+      have h0 := ih []
+      simp only [List.getElem?_nil] at h0
+      simp only [List.mapIdx_cons, List.getElem?_nil, tbGo]
+      rw [h0]
+    | cons ip ips =>
+      simp only [List.mapIdx_cons, List.getElem?_cons_zero, List.getElem?_cons_succ, tbGo]
+      rw [ih ips]
+
+theorem tracebackEntries_eq_tbGo (g : Fiber) : tracebackEntries g = tbGo g.frames.reverse g.backtraceIps := by
+  rw [← mapIdx_eq_tbGo]
+  rfl
+
+/-- frames `R` (innermost first) of which all but the first `n` are still those of `R0`, reported
+with the ips saved from the first `n` frames of `R0`: everything is reported as in `R0` -/
+theorem tbGo_saved (R R0 : List Frame) (n : Nat) (hf : R.map Frame.fn = R0.map Frame.fn)
+    (hd : R.drop n = R0.drop n) :
+    tbGo R ((R0.take n).map Frame.ip) = R0.map fun fr => (fr.fn, reportOffset fr.ip) := by
+  induction R generalizing R0 n with
+  | nil => cases R0 <;> simp_all [tbGo]
+  | cons a R ih =>
+    cases R0 with
+    | nil => simp at hf
+    | cons b R0 =>
+      simp only [List.map_cons, List.cons.injEq] at hf
+      cases n with
+      | zero =>
+        simp only [List.drop_zero] at hd
+        rw [hd]
+        simp [tbGo_nil]
+      | succ n =>
+        simp only [List.drop_succ_cons] at hd
+        simp only [List.take_succ_cons, List.map_cons, tbGo, hf.1]
+        rw [ih R0 n hf.2 hd]
+
+/-- In every state of the search, `print_error` would report the frames of the moment of the raise:
+same functions, innermost first, each with the ip it had when the error was raised. -/
+theorem pre_traceback (F0 : List Frame) (g : Fiber) (d : Nat) (pre : Pre F0 g d) :
+    tracebackEntries g = F0.reverse.map fun fr => (fr.fn, reportOffset fr.ip) := by
+  rw [tracebackEntries_eq_tbGo, pre.ips]
+  apply tbGo_saved
+  · rw [List.map_reverse, List.map_reverse, pre.fns]
+  · have hn := pre.len
+    have h1 := pre.dpos
+    have h2 := pre.dle
+    rw [List.drop_reverse, List.drop_reverse, hn]
+    have e : F0.length - (F0.length + 1 - d) = d - 1 := by omega
+    rw [e, pre.below]
+
 /-! ### nested interpreter loops (a native called back) -/
 
 /-- a nested loop only accepts a handler of a frame pushed above its bottom -/
